@@ -7,7 +7,7 @@
    check); the `_partial`/flat theorems next to them carry the narrowest boolean hypothesis.
    Nesting depth of tables inside cells is bounded by 1 in the source type (`citem`). *)
 From Coq Require Import ZArith List Bool.
-From S2T Require Import Lib.PyStr C13.Model C13.ProofsHtml C13.ProofsSheets C13.ProofsOds C13.ProofsTree.
+From S2T Require Import Lib.PyStr C13.Model C13.ProofsHtml C13.ProofsSheets C13.ProofsOds C13.ProofsTree C13.ProofsRtf.
 Import ListNotations.
 Notation length := List.length.
 
@@ -131,7 +131,7 @@ Print Assumptions C13_epub_nested_refuted.
 Theorem C13_ods_plain_roundtrip : forall (pint : int_oracle) (pflt : float_oracle),
   (forall n : N, pint (dec_N n) = Some (Z.of_N n)) ->
   forall (g : list (list ocell)) (c : nat),
-  (1 <= c)%nat -> g <> [] -> grid_ok pflt g = true -> rect c g = true ->
+  (1 <= c)%nat -> g <> [] -> rect c g = true ->
   last_row_has_data pflt g = true -> last_col_has_data pflt c g = true ->
   ods_sheet pint pflt (ods_r_sheet_plain g) = Some (ogrid_spec pflt g).
 Proof. exact ods_plain_roundtrip. Qed.
@@ -141,7 +141,7 @@ Print Assumptions C13_ods_plain_roundtrip.
 Theorem C13_ods_rle_roundtrip : forall (pint : int_oracle) (pflt : float_oracle),
   (forall n : N, pint (dec_N n) = Some (Z.of_N n)) ->
   forall (g : list (list ocell)) (c : nat),
-  (1 <= c)%nat -> g <> [] -> grid_ok pflt g = true -> rect c g = true ->
+  (1 <= c)%nat -> g <> [] -> rect c g = true ->
   last_row_has_data pflt g = true -> last_col_has_data pflt c g = true ->
   grid_nul_free g = true -> no_long_empty_runs pflt g = true ->
   ods_sheet pint pflt (ods_r_sheet_rle g) = Some (ogrid_spec pflt g).
@@ -149,12 +149,29 @@ Proof. exact ods_rle_roundtrip. Qed.
 Print Assumptions C13_ods_rle_roundtrip.
 
 Theorem C13_ods_repeat_cap_refuted : exists (g : list (list ocell)) (c : nat),
-  (1 <= c)%nat /\ g <> [] /\ grid_ok pflt0 g = true /\ rect c g = true /\
+  (1 <= c)%nat /\ g <> [] /\ rect c g = true /\
   last_row_has_data pflt0 g = true /\ last_col_has_data pflt0 c g = true /\ grid_nul_free g = true /\
   ods_sheet ProofsOds.pint0 pflt0 (ods_r_sheet_plain g) = Some (ogrid_spec pflt0 g) /\
   ods_sheet ProofsOds.pint0 pflt0 (ods_r_sheet_rle g) <> Some (ogrid_spec pflt0 g).
 Proof. exact ods_repeat_cap_refuted. Qed.
 Print Assumptions C13_ods_repeat_cap_refuted.
+
+(* a cell comment (office:annotation, arbitrary content) does not reach the cell's value
+   (repaired code, fixes/C13-ods-cell-comment-text.patch) *)
+Theorem C13_ods_cell_comment_skipped : forall (pint : int_oracle) (pflt : float_oracle) aa ax acs al (t : str),
+  ods_cell_value pint pflt (Elem TABLE_CELL [(ATTR_VALUE_TYPE, s "string")] []
+                                 [Elem OFFICE_ANNOTATION aa ax acs al; ET TEXT_P t] [])
+  = Some (if is_nil t then VNone else VStr t).
+Proof. exact ods_cell_comment_skipped. Qed.
+Print Assumptions C13_ods_cell_comment_skipped.
+
+(* a non-finite office:value is kept as its text and no longer aborts the file
+   (repaired code, fixes/C13-ods-nonfinite-number.patch): ods_sheet never raises on rendered grids,
+   whatever float() says — the round-trip theorems above carry no hypothesis on the float oracle *)
+Theorem C13_ods_nonfinite_kept_as_text :
+  ods_sheet ProofsOds.pint0 (fun _ => FOvf) (ods_r_sheet_plain [[ONum (s "inf")]]) = Some [[VStr (s "inf")]].
+Proof. exact ovf_kept_as_text. Qed.
+Print Assumptions C13_ods_nonfinite_kept_as_text.
 
 (* ---------------------------------------------------------------- XLSX *)
 Theorem C13_xlsx_sheet_partial : forall (is_ws : N -> bool) (g : list (list xcell)) (c : nat),
@@ -181,6 +198,13 @@ Theorem C13_xlsx_typed_header_refuted : exists g : list (list xcell),
   xlsx_sheet ws_ascii g <> xgrid_spec g.
 Proof. exact xlsx_typed_header_refuted. Qed.
 Print Assumptions C13_xlsx_typed_header_refuted.
+
+(* a datetime in the first row comes back as str(value) ('2024-01-02 00:00:00'), not as the ISO string *)
+Theorem C13_xlsx_date_header_refuted : exists g : list (list xcell),
+  x_rect 2 g = true /\ x_last_row_has_data ws_ascii g = true /\ x_last_col_has_data ws_ascii 2 g = true /\
+  xlsx_sheet ws_ascii g <> xgrid_spec g.
+Proof. exact xlsx_date_header_refuted. Qed.
+Print Assumptions C13_xlsx_date_header_refuted.
 
 (* typed values: dates/times come back as their ISO string, durations as their str() form, everything
    else (numbers, booleans, text, error texts) unchanged — this is what xgrid_spec says cell by cell *)
@@ -216,3 +240,43 @@ Theorem C13_xls_header_only_refuted : exists (g : list (list lcell)) (r0 : list 
   g = [r0] /\ l_rect 2 g = true /\ nodup_str (map lc_header r0) = true /\ xls_sheet_table g <> lgrid_spec g.
 Proof. exact xls_header_only_refuted. Qed.
 Print Assumptions C13_xls_header_only_refuted.
+
+(* ---------------------------------------------------------------- RTF (regex walker, hand-written matchers)
+   is_ws / is_word are the whitespace and \w oracles; the pointwise facts about them are re-decided
+   for today's tables in C13/InstRtf.v (C13_rtf_oracle_facts) *)
+Theorem C13_rtf_tables_single : forall is_ws is_word : N -> bool,
+  is_ws 32 = true -> is_ws 9 = true -> is_ws 10 = true -> is_ws 11 = true -> is_ws 12 = true ->
+  is_word 32 = false -> is_word 92 = false -> is_word 10 = false ->
+  forall g : list (list str), g <> [] ->
+  forallb (fun r => negb (is_nil r)) g = true -> forallb (forallb (rtf_plain is_ws)) g = true ->
+  rtf_tables is_ws is_word (rtf_r_doc [RTable g]) = [rtf_pad_rows g].
+Proof. exact rtf_tables_single. Qed.
+Print Assumptions C13_rtf_tables_single.
+
+(* padding is the identity on a rectangular grid, so r x c comes back as r x c, cell by cell *)
+Theorem C13_rtf_pad_rows_id : forall (g : list (list str)) (c : nat),
+  forallb (fun r => Nat.eqb (length r) c) g = true -> rtf_pad_rows g = g.
+Proof. exact rtf_pad_rows_id. Qed.
+Print Assumptions C13_rtf_pad_rows_id.
+
+Theorem C13_rtf_get_dim : forall g : list (list str), data_get_dim (rtf_pad_rows g) = (length g, max_len g).
+Proof. exact rtf_get_dim. Qed.
+Print Assumptions C13_rtf_get_dim.
+
+(* adjacency holds when the paragraph between the tables is long (>= 90 characters) ... *)
+Theorem C13_rtf_tables_long_separator : forall is_ws is_word : N -> bool,
+  is_ws 32 = true -> is_ws 9 = true -> is_ws 10 = true -> is_ws 11 = true -> is_ws 12 = true -> is_ws 100 = false ->
+  is_word 32 = false -> is_word 92 = false -> is_word 10 = false ->
+  forall (g1 g2 : list (list str)) (t : str),
+  g1 <> [] -> forallb (fun r => negb (is_nil r)) g1 = true -> forallb (forallb (rtf_plain is_ws)) g1 = true ->
+  g2 <> [] -> forallb (fun r => negb (is_nil r)) g2 = true -> forallb (forallb (rtf_plain is_ws)) g2 = true ->
+  rtf_plain is_ws t = true -> (90 <= length t)%nat ->
+  rtf_tables is_ws is_word (rtf_r_doc [RTable g1; RPara t; RTable g2]) = [rtf_pad_rows g1; rtf_pad_rows g2].
+Proof. exact rtf_tables_long_separator. Qed.
+Print Assumptions C13_rtf_tables_long_separator.
+
+(* ... and fails otherwise: two tables separated by a short paragraph come back as one *)
+Theorem C13_rtf_adjacent_tables_merged_refuted : exists d : list rblock,
+  rtf_doc_plain ws_ascii d = true /\ rtf_tables ws_ascii wd_ascii (rtf_r_doc d) <> rtf_doc_tables d.
+Proof. exact rtf_adjacent_tables_merged_refuted. Qed.
+Print Assumptions C13_rtf_adjacent_tables_merged_refuted.
